@@ -1006,6 +1006,104 @@ def _unroll_const_loops(fn: ast.FunctionDef, log: list[str]) -> bool:
     return changed
 
 
+def _dfs_names(fn: ast.AST) -> list[ast.Name]:
+    "Name nodes of a function in source (depth-first, left-to-right) order; assignments: value before targets"
+    out: list[ast.Name] = []
+
+    def rec(n):
+        if isinstance(n, (ast.FunctionDef, ast.AsyncFunctionDef, ast.ClassDef, ast.Lambda)) and n is not fn:
+            for x in ast.walk(n):
+                if isinstance(x, ast.Name):
+                    out.append(x)
+            return
+        if isinstance(n, ast.Name):
+            out.append(n)
+            return
+        if isinstance(n, ast.Assign):
+            rec(n.value)
+            for t in n.targets:
+                rec(t)
+            return
+        if isinstance(n, (ast.AnnAssign, ast.AugAssign)):
+            if getattr(n, "value", None) is not None:
+                rec(n.value)
+            rec(n.target)
+            return
+        for ch in ast.iter_child_nodes(n):
+            rec(ch)
+    rec(fn)
+    return out
+
+
+def _split_tuple_copies(fn: ast.FunctionDef) -> bool:
+    "`a, b = (x, y)` with plain names on both sides (no name on the right is a target on the left) -> `a = x; b = y`"
+    changed = False
+    for parent in [fn, *_walk_fn(fn)]:
+        for fld in ("body", "orelse", "finalbody"):
+            blk = getattr(parent, fld, None)
+            if not (isinstance(blk, list) and blk and isinstance(blk[0], ast.stmt)):
+                continue
+            i = 0
+            while i < len(blk):
+                st = blk[i]
+                i += 1
+                if isinstance(st, ast.Assign) and len(st.targets) == 1 and isinstance(st.targets[0], (ast.Tuple, ast.List)) and isinstance(st.value, (ast.Tuple, ast.List)) \
+                        and len(st.targets[0].elts) == len(st.value.elts) and all(isinstance(e, ast.Name) for e in st.targets[0].elts):
+                    tnames = {e.id for e in st.targets[0].elts}
+                    if any(isinstance(x, ast.Name) and x.id in tnames for v in st.value.elts for x in ast.walk(v)):
+                        continue
+                    if not all(_is_pure(v) for v in st.value.elts):
+                        continue
+                    new = [ast.copy_location(ast.Assign(targets=[t], value=v), st) for t, v in zip(st.targets[0].elts, st.value.elts)]
+                    blk[i - 1:i] = new
+                    i += len(new) - 1
+                    changed = True
+    return changed
+
+
+def _coalesce_copies(fn: ast.FunctionDef, ref_locals: list[str], log: list[str]) -> bool:
+    """R1b (in place): `x = t` where t is a local that is new w.r.t. the reference and dead afterwards, and x is bound only here and
+    not read before: t *is* x - rename t to x and drop the copy (left behind by helper inlining / tuple returns)"""
+    changed = False
+    for _ in range(12):
+        progressed = False
+        params = set(_param_names(fn))
+        names = _dfs_names(fn)
+        order = {id(n): i for i, n in enumerate(names)}
+        for parent in [fn, *_walk_fn(fn)]:
+            for fld in ("body", "orelse", "finalbody"):
+                blk = getattr(parent, fld, None)
+                if not (isinstance(blk, list) and blk and isinstance(blk[0], ast.stmt)):
+                    continue
+                for st in list(blk):
+                    if not (isinstance(st, ast.Assign) and len(st.targets) == 1 and isinstance(st.targets[0], ast.Name) and isinstance(st.value, ast.Name)):
+                        continue
+                    x, t = st.targets[0].id, st.value.id
+                    if x == t or t in params or x in params or t in ref_locals:
+                        continue
+                    here = order[id(st.value)]
+                    x_stores = [n for n in names if n.id == x and isinstance(n.ctx, ast.Store)]
+                    x_before = [n for n in names if n.id == x and order[id(n)] < here]
+                    t_after = [n for n in names if n.id == t and order[id(n)] > here]
+                    if len(x_stores) != 1 or x_before or t_after:
+                        continue
+                    # the definition(s) of t must not sit inside a loop that the copy is outside of (the value would be the last iteration's: still the same object) - fine
+                    blk.remove(st)
+                    if not blk:
+                        blk.append(ast.copy_location(ast.Pass(), st))
+                    _Rename({t: x}).visit(fn)
+                    log.append(f"coalesced copy `{x} = {t}`")
+                    progressed = changed = True
+                    break
+                if progressed:
+                    break
+            if progressed:
+                break
+        if not progressed:
+            break
+    return changed
+
+
 def _recover_renames_by_position(fn: ast.FunctionDef, ref_locals: list[str], log: list[str], ref_heads: dict | None = None) -> None:
     """R3a (in place, before R2): between two consecutive locals that both lists share, a run of new names of the same length as
     the run of vanished reference names is a rename"""
@@ -1481,6 +1579,9 @@ def normalize_module(tree: ast.Module, modname: str, log: list[str] | None = Non
         if q in ref:
             rl = ref[q]["locals"]
             rh = ref[q].get("heads")
+            if _split_tuple_copies(f):
+                pass
+            _coalesce_copies(f, rl, log)
             _recover_renames_by_position(f, rl, log, rh)
             _propagate_new_locals(f, rl, log)
             if _forward_substitute_single_use(f, rl, log):
